@@ -395,4 +395,253 @@ theorem removeVar_attained (A a : List Nat) (v : Nat) (st : TState) (ha : Valid 
   simp only [stVal, bvAt] at *
   linarith
 
+/-! ### the elimination loop and the reported value -/
+
+/-- loop invariant on the graph: every node has a key, and only agents not yet eliminated occur -/
+def LInv (active : List Nat) (g : List TNode) : Prop := ∀ nd ∈ g, nd.keys ≠ [] ∧ ∀ u ∈ nd.keys, u ∈ active
+
+theorem addToNode_keys (keys : List Nat) (nr : TRule) : ∀ (g : List TNode), ∀ nd ∈ addToNode keys nr g,
+    nd.keys = keys ∨ ∃ nd' ∈ g, nd'.keys = nd.keys
+  | [], nd, h => by simp [addToNode] at h; subst h; exact Or.inl rfl
+  | x :: g, nd, h => by
+    simp only [addToNode] at h
+    split at h
+    · rcases List.mem_cons.mp h with h | h
+      · subst h; exact Or.inr ⟨x, List.mem_cons_self .., rfl⟩
+      · exact Or.inr ⟨nd, List.mem_cons_of_mem _ h, rfl⟩
+    · rcases List.mem_cons.mp h with h | h
+      · subst h; exact Or.inr ⟨nd, List.mem_cons_self .., rfl⟩
+      · rcases addToNode_keys keys nr g nd h with h' | ⟨nd', h1, h2⟩
+        · exact Or.inl h'
+        · exact Or.inr ⟨nd', List.mem_cons_of_mem _ h1, h2⟩
+
+theorem removeLoop_keys (A : List Nat) (n : Nat) (nb : List Nat) (v : Nat) (factors : List TNode) :
+    ∀ (cnt j : Nat) (st : TState), ∀ nd ∈ (removeLoop A n nb v factors cnt j st).graph,
+      (nb.isEmpty = false ∧ nd.keys = nb) ∨ ∃ nd' ∈ st.graph, nd'.keys = nd.keys
+  | 0, _, st, nd, h => Or.inr ⟨nd, h, rfl⟩
+  | cnt+1, j, st, nd, h => by
+    rw [removeLoop_succ] at h
+    rcases removeLoop_keys A n nb v factors cnt (j+1) _ nd h with h' | ⟨nd', h1, h2⟩
+    · exact Or.inl h'
+    · cases hb : bestOver A n nb (toFactors (sel nb A) j) v factors (A.getD v 0) 0 none with
+      | none => rw [hb] at h1; exact Or.inr ⟨nd', h1, h2⟩
+      | some nf =>
+        rw [hb] at h1
+        by_cases he : nb.isEmpty = true
+        · simp only [he, if_true] at h1; exact Or.inr ⟨nd', h1, h2⟩
+        · have he' : nb.isEmpty = false := by simpa using he
+          simp only [he', Bool.false_eq_true, if_false] at h1
+          rcases addToNode_keys nb _ st.graph nd' h1 with h3 | ⟨nd'', h3, h4⟩
+          · exact Or.inl ⟨he', by rw [← h2, h3]⟩
+          · exact Or.inr ⟨nd'', h3, by rw [h4, h2]⟩
+
+theorem removeVar_LInv (A : List Nat) (v : Nat) (active : List Nat) (st : TState)
+    (hinv : LInv active st.graph) : LInv (active.filter (· != v)) (removeVar A A.length v st).graph := by
+  intro nd hnd
+  simp only [removeVar] at hnd
+  obtain ⟨hmem, hnv⟩ := List.mem_filter.mp hnd
+  have hnv' : ∀ u ∈ nd.keys, u ≠ v := by
+    intro u hu e; subst e
+    simp at hnv
+    exact hnv hu
+  have hold : ∀ nd' ∈ st.graph, nd'.keys = nd.keys → nd.keys ≠ [] ∧ ∀ u ∈ nd.keys, u ∈ active.filter (· != v) := by
+    intro nd' h1 h2
+    obtain ⟨k1, k2⟩ := hinv nd' h1
+    rw [h2] at k1 k2
+    exact ⟨k1, fun u hu => List.mem_filter.mpr ⟨k2 u hu, by simpa using hnv' u hu⟩⟩
+  have hnbcase : ∀ nb, nb = nbrs A.length v (st.graph.map (·.keys)) → nb.isEmpty = false → nd.keys = nb →
+      nd.keys ≠ [] ∧ ∀ u ∈ nd.keys, u ∈ active.filter (· != v) := by
+    intro nb hnb he hk
+    refine ⟨by rw [hk]; intro e; simp [e] at he, ?_⟩
+    intro u hu
+    have hu' : u ∈ nbrs A.length v (st.graph.map (·.keys)) := by rw [← hnb, ← hk]; exact hu
+    obtain ⟨_, hne, s, hs, _, hus⟩ := (mem_nbrs _ _ _ _).mp hu'
+    obtain ⟨nd', hnd', rfl⟩ := List.mem_map.mp hs
+    exact List.mem_filter.mpr ⟨(hinv nd' hnd').2 u hus, by simpa using hne⟩
+  rcases removeLoop_keys A A.length _ v _ _ _ _ nd hmem with ⟨he, hk⟩ | ⟨nd', h1, h2⟩
+  · exact hnbcase _ rfl he hk
+  · simp only at h1
+    split at h1
+    · exact hold nd' h1 h2
+    · rcases List.mem_append.mp h1 with h1 | h1
+      · exact hold nd' h1 h2
+      · simp only [List.mem_singleton] at h1
+        subst h1
+        rename_i hcond
+        have he : (nbrs A.length v (st.graph.map (·.keys))).isEmpty = false := by
+          by_contra hc
+          have : (nbrs A.length v (st.graph.map (·.keys))).isEmpty = true := by simpa using hc
+          simp [this] at hcond
+        exact hnbcase _ rfl he h2.symm
+
+theorem foldl_fst_mem (step : Nat × Nat → Nat → Nat × Nat)
+    (hstep : ∀ st next, step st next = st ∨ (step st next).1 = next) :
+    ∀ (l : List Nat) (init : Nat × Nat), (l.foldl step init).1 = init.1 ∨ (l.foldl step init).1 ∈ l
+  | [], init => Or.inl rfl
+  | x :: xs, init => by
+    simp only [List.foldl_cons]
+    rcases foldl_fst_mem step hstep xs (step init x) with h | h
+    · rcases hstep init x with h' | h'
+      · exact Or.inl (by rw [h, h'])
+      · exact Or.inr (by rw [h, h']; exact List.mem_cons_self ..)
+    · exact Or.inr (List.mem_cons_of_mem _ h)
+
+theorem bestVar_mem (A : List Nat) (n : Nat) (scopes : List (List Nat)) : ∀ (active : List Nat), active ≠ [] →
+    bestVar A n active scopes ∈ active
+  | [], h => absurd rfl h
+  | first :: more, _ => by
+    simp only [bestVar]
+    have := foldl_fst_mem
+      (fun st next =>
+          if (!factorExists (nbrs n next scopes) scopes && factorExists (nbrs n first scopes) scopes) = true then st
+          else
+            if (factorExists (nbrs n next scopes) scopes && !factorExists (nbrs n first scopes) scopes ||
+                    decide (costOf A next (nbrs n next scopes) < st.2)) = true then
+              (next, costOf A next (nbrs n next scopes))
+            else st)
+      (by
+        intro st next
+        by_cases c1 : (!factorExists (nbrs n next scopes) scopes && factorExists (nbrs n first scopes) scopes) = true
+        · left; simp only [c1, if_true]
+        · by_cases c2 : (factorExists (nbrs n next scopes) scopes && !factorExists (nbrs n first scopes) scopes ||
+                    decide (costOf A next (nbrs n next scopes) < st.2)) = true
+          · right; simp [c1, c2]
+          · left; simp [c1, c2])
+      more (first, costOf A first (nbrs n first scopes))
+    rcases this with h | h
+    · rw [h]; exact List.mem_cons_self ..
+    · exact List.mem_cons_of_mem _ h
+
+theorem valid_setAt (A a : List Nat) (v k : Nat) (ha : Valid A a) (hk : k < A.getD v 0) (hv : v < A.length) :
+    Valid A (setAt a v k) := by
+  have hl := valid_len A a ha
+  rw [valid_iff_getD]
+  refine ⟨by rw [length_setAt, hl], ?_⟩
+  intro i hi
+  rw [getD_setAt a v k i (by rw [hl]; exact hv)]
+  by_cases e : i = v
+  · subst e; simpa using hk
+  · simp only [e, if_false]; exact ((valid_iff_getD A a).mp ha).2 i hi
+
+theorem length_filter_ne_lt (v : Nat) : ∀ (l : List Nat), v ∈ l → (l.filter (· != v)).length < l.length
+  | [], h => by simp at h
+  | x :: xs, h => by
+    by_cases e : x = v
+    · subst e
+      have : (xs.filter (· != x)).length ≤ xs.length := List.length_filter_le _ _
+      simp [List.filter]; omega
+    · have hx : v ∈ xs := by
+        rcases List.mem_cons.mp h with h | h
+        · exact absurd h.symm e
+        · exact h
+      have := length_filter_ne_lt v xs hx
+      have e' : (x != v) = true := by simpa using e
+      simp [List.filter, e']; omega
+
+theorem tveLoop_nil (A : List Nat) (fuel : Nat) (st : TState) (hinv : LInv [] st.graph) :
+    (tveLoop A A.length fuel [] st).graph = [] ∧
+    (∀ a, Valid A a → stVal A a st ≤ stVal A a (tveLoop A A.length fuel [] st)) ∧
+    (∀ a, Valid A a → ∃ a', Valid A a' ∧ stVal A a' st = stVal A a (tveLoop A A.length fuel [] st)) := by
+  have hg : st.graph = [] := by
+    cases hgr : st.graph with
+    | nil => rfl
+    | cons nd g =>
+      have := hinv nd (by rw [hgr]; exact List.mem_cons_self ..)
+      obtain ⟨u, hu⟩ := List.exists_mem_of_ne_nil _ this.1
+      exact absurd (this.2 u hu) (by simp)
+  have : tveLoop A A.length fuel [] st = st := by cases fuel <;> rfl
+  rw [this]
+  exact ⟨hg, fun a _ => le_refl _, fun a ha => ⟨a, ha, rfl⟩⟩
+
+/-- the whole `while (graph.variableSize()) removeFactor(...)` loop, whatever `bestVariableToRemove` picks -/
+theorem tveLoop_spec (A : List Nat) (hA : ∀ d ∈ A, 0 < d) : ∀ (fuel : Nat) (active : List Nat) (st : TState),
+    active.length ≤ fuel → (∀ u ∈ active, u < A.length) → LInv active st.graph →
+      (tveLoop A A.length fuel active st).graph = [] ∧
+      (∀ a, Valid A a → stVal A a st ≤ stVal A a (tveLoop A A.length fuel active st)) ∧
+      (∀ a, Valid A a → ∃ a', Valid A a' ∧ stVal A a' st = stVal A a (tveLoop A A.length fuel active st)) := by
+  intro fuel
+  induction fuel with
+  | zero =>
+    intro active st hlen _ hinv
+    have : active = [] := List.length_eq_zero_iff.mp (by omega)
+    subst this
+    exact tveLoop_nil A 0 st hinv
+  | succ fuel ih =>
+    intro active st hlen hact hinv
+    cases active with
+    | nil => exact tveLoop_nil A (fuel+1) st hinv
+    | cons x xs =>
+      obtain ⟨v, hvdef⟩ : ∃ v, v = bestVar A A.length (x :: xs) (st.graph.map (·.keys)) := ⟨_, rfl⟩
+      have hvmem : v ∈ x :: xs := by rw [hvdef]; exact bestVar_mem _ _ _ _ (by simp)
+      have hv : v < A.length := hact v hvmem
+      have hpos : 0 < A.getD v 0 := by
+        have : A.getD v 0 = A[v] := by simp [List.getD_eq_getElem?_getD, List.getElem?_eq_getElem hv]
+        rw [this]; exact hA _ (List.getElem_mem hv)
+      have hk : GKeys A.length st.graph := fun nd hnd u hu => hact u ((hinv nd hnd).2 u hu)
+      have hstep : tveLoop A A.length (fuel+1) (x :: xs) st
+          = tveLoop A A.length fuel ((x :: xs).filter (· != v)) (removeVar A A.length v st) := by
+        rw [hvdef]; rfl
+      rw [hstep]
+      have hlen' : ((x :: xs).filter (· != v)).length ≤ fuel := by
+        have := length_filter_ne_lt v (x :: xs) hvmem
+        simp only [List.length_cons] at hlen this ⊢; omega
+      obtain ⟨h1, h2, h3⟩ := ih ((x :: xs).filter (· != v)) (removeVar A A.length v st) hlen'
+        (fun u hu => hact u (List.mem_filter.mp hu).1) (removeVar_LInv A v (x :: xs) st hinv)
+      refine ⟨h1, ?_, ?_⟩
+      · intro a ha
+        exact le_trans (removeVar_ge A a v st ha hv hpos hk) (h2 a ha)
+      · intro a ha
+        obtain ⟨a1, ha1, e1⟩ := h3 a ha
+        obtain ⟨k, hk1, e2⟩ := removeVar_attained A a1 v st ha1 hv hpos hk
+        exact ⟨setAt a1 v k, valid_setAt A a1 v k ha1 hk1 hv, by rw [e2, e1]⟩
+
+theorem tInit_keys (A : List Nat) : ∀ (rules : List Rule) (g : List TNode), ∀ nd ∈ tInit A rules g,
+    (∃ r ∈ rules, nd.keys = r.keys) ∨ ∃ nd' ∈ g, nd'.keys = nd.keys
+  | [], g, nd, h => Or.inr ⟨nd, h, rfl⟩
+  | r :: rs, g, nd, h => by
+    simp only [tInit] at h
+    rcases tInit_keys A rs _ nd h with ⟨r', hr', hk⟩ | ⟨nd', h1, h2⟩
+    · exact Or.inl ⟨r', List.mem_cons_of_mem _ hr', hk⟩
+    · rcases addToNode_keys r.keys _ g nd' h1 with h3 | ⟨nd'', h3, h4⟩
+      · exact Or.inl ⟨r, List.mem_cons_self .., by rw [← h2, h3]⟩
+      · exact Or.inr ⟨nd'', h3, by rw [h4, h2]⟩
+
+theorem tMakeResult_val : ∀ (finals : List (Rat × List (Nat × Nat))) (acc : List Nat × Rat),
+    (finals.foldl (fun (acc : List Nat × Rat) f =>
+      (f.2.foldl (fun a t => setAt a t.1 t.2) acc.1, acc.2 + f.1)) acc).2 = acc.2 + finalsVal finals
+  | [], acc => by simp [finalsVal]
+  | f :: fs, acc => by
+    simp only [List.foldl_cons, finalsVal]
+    rw [tMakeResult_val fs]; ring
+
+/-- **`tve_value_correct`** — the table-level model of `VariableElimination::operator()` (sorted rule vectors,
+    `lower_bound` lookups, merge on collision, `bestVariableToRemove` order, final factors summed in `makeResult`)
+    reports exactly the exhaustive maximum of the total payoff, for EVERY well-formed rule set. -/
+theorem tve_value_correct (A : List Nat) (rules : List Rule) (hA : ∀ d ∈ A, 0 < d)
+    (hwf : ∀ r ∈ rules, r.WF A) (hne : ∀ r ∈ rules, r.keys ≠ []) :
+    (tveRun A rules).2 = bruteMax A rules := by
+  have hinv : LInv (List.range A.length) (tInit A rules []) := by
+    intro nd hnd
+    rcases tInit_keys A rules [] nd hnd with ⟨r, hr, hk⟩ | ⟨_, h, _⟩
+    · rw [hk]; exact ⟨hne r hr, fun u hu => List.mem_range.mpr ((hwf r hr).1 u hu)⟩
+    · simp at h
+  obtain ⟨h1, h2, h3⟩ := tveLoop_spec A hA A.length (List.range A.length) ⟨tInit A rules [], []⟩
+    (by simp) (fun u hu => List.mem_range.mp hu) hinv
+  have hval : (tveRun A rules).2 = finalsVal (tveLoop A A.length A.length (List.range A.length) ⟨tInit A rules [], []⟩).finals := by
+    simp only [tveRun, tMakeResult]
+    rw [tMakeResult_val]; simp
+  have hst0 : ∀ a, Valid A a → stVal A a ⟨tInit A rules [], []⟩ = payoffL rules a := by
+    intro a ha
+    simp only [stVal, finalsVal]
+    rw [tInit_represents A a ha rules [] hwf]; simp [graphVal]
+  have hend : ∀ a, stVal A a (tveLoop A A.length A.length (List.range A.length) ⟨tInit A rules [], []⟩) = (tveRun A rules).2 := by
+    intro a; rw [hval]; simp only [stVal, h1, graphVal]; ring
+  apply le_antisymm
+  · obtain ⟨a', ha', e⟩ := h3 (A.map (fun _ => 0)) (valid_zeros A hA)
+    rw [hend, hst0 a' ha'] at e
+    rw [← e]; exact bruteMax_ge A rules a' ha'
+  · obtain ⟨a, ha, hp⟩ := bruteMax_attained A rules hA
+    rw [← hp, ← hst0 a ha, ← hend a]
+    exact h2 a ha
+
 end AITB.VE
